@@ -1176,6 +1176,26 @@ class Interp:
     # ---- subscript stores
     def store_subscript(self, target, v, env):
         base = target.value
+        if (isinstance(base, ast.Call) and isinstance(base.func, ast.Attribute) and base.func.attr in ("ravel", "reshape") and isinstance(base.func.value, ast.Name)
+                and isinstance(env.get(base.func.value.id), Arr) and not base.keywords):
+            # x.ravel()[i] = v / x.reshape(-1)[i] = v: a store into x itself when the flat array is a view, which it is for
+            # C-contiguous memory; for any other layout ravel() hands out a copy and the store never reaches x
+            owner = env[base.func.value.id]
+            flat = self.eval(base, env)
+            if isinstance(flat, Arr) and flat.ndim == 1 and owner.shape is not None:
+                if owner.meta.get("layout_of") or isinstance(owner, SymArr) or owner.meta.get("param"):
+                    self.event("layout", target, "%s: the flattened array is a view only when %s is C-contiguous, and its memory layout follows the caller's array %s; for a transposed or Fortran-ordered one the store goes into a copy and is lost" % (
+                        ast.unparse(target)[:50], base.func.value.id, owner.meta.get("layout_of") or owner.name))
+                if owner.meta.get("c_order") or owner.meta.get("layout_of"):
+                    idx = self.eval_index(target.slice, env)
+                    newflat = self.np.store(self, flat, idx, v, target, env)
+                    if isinstance(newflat, Arr):
+                        new = Arr(owner.shape, newflat.val, owner.dtype, dict(owner.meta))
+                        new.meta["flat_of"] = newflat
+                        for k in list(env):
+                            if env[k] is owner:
+                                env[k] = new
+                        return
         if not isinstance(base, ast.Name):
             try:
                 arr = self.eval(base, env)
@@ -1831,7 +1851,21 @@ class Interp:
         b = [k for k, bb in enumerate(bounds) if bb.eq(hi)]
         if a and b and a[0] <= b[0]:
             return Tup(base.items[a[0]: b[0]], base.kind)
-        self.event("misaligned-slice", node, "slice [%r:%r] of a list with segment boundaries %r" % (lo, hi, bounds))
+        # a slice that lies inside one generated segment is that segment re-indexed: x[a:b] of [e(j) for j in range(n)] is
+        # [e(j + a) for j in range(b - a)]
+        pos = ZERO
+        for x in base.items:
+            n = (x.rng.count * (len(x.elem.items) if isinstance(x.elem, Tup) and x.elem.kind == "group" else 1)) if isinstance(x, GenList) else ONE
+            if isinstance(x, GenList) and not (isinstance(x.elem, Tup) and x.elem.kind == "group"):
+                off, rest = (lo - pos).expand(), (pos + n - hi).expand()
+                if self.facts.possible(off) <= {"0", "+"} and self.facts.possible(rest) <= {"0", "+"} and self.facts.possible((hi - lo).expand()) <= {"0", "+"}:
+                    new_elem = subst_value(x.elem, {x.ivar: alg.atom_expr(x.ivar) + off})
+                    return Tup([GenList(new_elem, x.ivar, RangeV(x.rng.start + off * x.rng.step, x.rng.start + (off + hi - lo) * x.rng.step, x.rng.step))], base.kind)
+            pos = pos + n
+        # polynomial bounds in the sizes that differ from every boundary are a definite misalignment (blocks of n_towers entries
+        # cut out of a list made of runs of n_steps); bounds that involve rounding or other functions are merely not understood
+        plain = all(not any(a.kind in ("fn", "def") for a in x.expand().atoms()) for x in (lo, hi))
+        self.event("misaligned-slice" if plain else "unmodelled-slice", node, "slice [%r:%r] of a list with segment boundaries %r" % (lo, hi, bounds))
         return Unknown("slice [%r:%r] does not coincide with the boundaries of the generated segments" % (lo, hi))
 
     def _const_int(self, node, env, default):
@@ -2156,7 +2190,7 @@ BUILTINS = {
     "len", "int", "float", "max", "min", "range", "tuple", "list", "str", "isinstance", "getattr", "abs",
     "enumerate", "zip", "sum", "bool", "dict", "set", "sorted", "print", "any", "all", "ValueError",
     "RuntimeError", "FileNotFoundError", "TypeError", "Exception", "hasattr", "round", "open", "repr", "type",
-    "complex", "reversed", "map", "id", "next", "iter", "slice", "KeyError", "IndexError", "ImportError",
+    "complex", "reversed", "map", "id", "object", "next", "iter", "slice", "KeyError", "IndexError", "ImportError",
 }
 
 EXT_MODULES = {"functools", "numpy", "np", "math", "scipy", "numba", "pyfftw", "os", "logging", "warnings", "hashlib", "pathlib",
@@ -2307,6 +2341,19 @@ def _is_generator(fn):
             continue
         stack.extend(ast.iter_child_nodes(n))
     return False
+
+
+def subst_value(v, mp):
+    """an abstract value with atoms replaced (used to re-index the generic element of a generated list)"""
+    if isinstance(v, Expr):
+        return v.subs(mp)
+    if isinstance(v, Tup):
+        return Tup([(subst_value(x[0], mp), subst_value(x[1], mp)) if isinstance(x, tuple) else subst_value(x, mp) for x in v.items], v.kind)
+    if isinstance(v, GenList):
+        return GenList(subst_value(v.elem, mp), v.ivar, v.rng)
+    if isinstance(v, Opaque) and v.attrs.get("__class__") is None and v.name in ("future",):
+        return Opaque(v.name, {k: subst_value(x, mp) for k, x in v.attrs.items()})
+    return v
 
 
 def has_unknown(v, depth=0):
